@@ -610,9 +610,13 @@ class DiscoveryComputation(MessagePassingComputation):
 
     def _on_computation_removed(self, _: DiscoveryName,
                                 msg: UnPublishComputationMessage):
-        self.discovery.unregister_computation(
-            msg.computation, msg.agent, publish=False)
-        pass
+        try:
+            self.discovery.unregister_computation(
+                msg.computation, msg.agent, publish=False)
+        except ValueError:
+            # Out-dated notification: the computation is known to be hosted
+            # on another agent (it has been re-hosted in the meantime).
+            pass
 
     def _on_replica_publish(self, _, msg: PublishReplicaMessage):
         if msg.publish:
